@@ -63,6 +63,36 @@ Theorem C02q_scheduler_always_quiescent :
 Proof. exact scheduler_always_quiescent. Qed.
 Print Assumptions C02q_scheduler_always_quiescent.
 
+Theorem C02q_script_states_all_quiescent :
+  forall tasks env f cs s l,
+    net_run_states tasks env f s cs = Ok l ->
+    quiescent s ->
+    Forall (fun bs => quiescent (snd bs)) l.
+Proof. exact net_run_states_quiescent. Qed.
+Print Assumptions C02q_script_states_all_quiescent.
+
+Theorem C02q_script_states_are_the_script :
+  forall tasks env f cs s,
+    net_run_script tasks env f s cs =
+    rbind (net_run_states tasks env f s cs)
+          (fun l => Ok (map (fun bs => net_observe (fst bs) (snd bs)) l)).
+Proof. exact net_run_script_states. Qed.
+Print Assumptions C02q_script_states_are_the_script.
+
+(* non-vacuity: a run with run-time generation (25 -> 27 transitions), all 16 calls return *)
+Theorem C02q_inhabited :
+  exists s0 l,
+    net_init (p_tasks (rc_prog Examples.ex_case)) true = Ok s0 /\
+    quiescentb s0 = true /\
+    net_run_states (p_tasks (rc_prog Examples.ex_case)) (env_of Examples.ex_case) net_fuel s0
+                   (rc_script Examples.ex_case) = Ok l /\
+    List.length l = 16 /\
+    List.length (ns_trans s0) = 25 /\
+    existsb (fun bs => Nat.eqb (List.length (ns_trans (snd bs))) 27) l = true /\
+    forallb (fun bs => quiescentb (snd bs)) l = true.
+Proof. exact quiescence_inhabited. Qed.
+Print Assumptions C02q_inhabited.
+
 Theorem C02q_quiescentb_decides :
   forall s, quiescentb s = true <-> (forall t, In t (ns_trans s) -> enabled s t = false).
 Proof. exact quiescentb_spec. Qed.
